@@ -51,7 +51,7 @@ pub fn def() -> PropDef {
         id: "C14",
         run,
         quick_runs: 12000,
-        thorough_runs: 300_000,
+        thorough_runs: 1_200_000,
         level: "exploration",
         rule: "a live daemon (2 rings; Mutex or RwLock backend adapter; VringMutex or VringRwLock) driven by the real Frontend through 1..12 of {SET_VRING_NUM 0..=65535 (boundaries 0,1,2,3,255,256,257,512,65535, powers of two, random), SET_VRING_BASE, SET_VRING_ADDR with address triples inside the mapped regions and a guest-written used index 0..=65535, GET_VRING_BASE, guest kick (samples the queue inside handle_event, then add_used + signal_used_queue), SET_FEATURES with masks relative to a drawn offered mask, SET_VRING_CALL/KICK replacement, memory-table replacement, a per-ring message with ring index num_queues..=255 (and 256..=955 on the messages whose index is 32 bits wide), SET_BACKEND_REQ_FD followed by a proxy request}; the reference ring record is compared with the sampled queue accessors, GET_VRING_BASE results, acked_features/set_event_idx callbacks, used-ring bytes in the memfd of the latest table and the counter of the latest call eventfd; rejected messages end the connection, which is re-established; non-trivial = history has >= 2 steps",
         assumptions: ASSUME,
